@@ -106,3 +106,16 @@ package rtpreceiver
 //@   ensures[C15] rr.firstSenderReportReceived && rr.lastSenderReportTimeNTP == sr.NTPTime && rr.lastSenderReportTimeRTP == sr.RTPTime
 //@   ensures[C15] rr.lastSenderReportTimeSystem == system
 //@   modifies rr.firstSenderReportReceived, rr.lastSenderReportTimeNTP, rr.lastSenderReportTimeRTP, rr.lastSenderReportTimeSystem
+
+// C14, receiver report: the fraction lost is computed from the two per-interval counters
+// (lost * 256 / expected, lost clamped to 24 bits) whenever anything was expected in the
+// interval, and BOTH counters restart with every report that is produced - whatever their
+// values, so that an interval without loss does not leak into the next one.
+//@ func (rr *Receiver) report
+//@   mode bv
+//@   opt typeinv=off
+//@   ensures[C14] old(rr.firstRTPPacketReceived) && old(rr.ClockRate) != 0 ==> rr.lostSinceReport == 0 && rr.receivedAndLostSinceReport == 0
+//@   ensures[C14] !(old(rr.firstRTPPacketReceived) && old(rr.ClockRate) != 0) ==> rr.lostSinceReport == old(rr.lostSinceReport) && rr.receivedAndLostSinceReport == old(rr.receivedAndLostSinceReport)
+//@   assert[C14]@store:lostSinceReport rr.receivedAndLostSinceReport == 0 ==> fractionLost == 0
+//@   assert[C14]@store:lostSinceReport rr.receivedAndLostSinceReport != 0 ==> fractionLost == uint8((min(rr.lostSinceReport, 0xFFFFFF) * 256) / rr.receivedAndLostSinceReport)
+//@   modifies *
